@@ -52,7 +52,12 @@ query Sc($d: Date) { when(d: $d) }
 query Cnt { count }
 mutation Mu($n: String!, $f: Filter) { rename(name: $n, f: $f) { id } }
 subscription Su { tick }
+query RootFr { ...OuterQ }
+query RootOne { ...InnerQ }
+query RootMix { ...InnerQ users { id } }
 fragment UF on User { id name }
+fragment InnerQ on Query { count }
+fragment OuterQ on Query { ...InnerQ me { name } }
 """
 PAYLOADS = {
     "One": {"user": {"id": "1", "name": "n", "color": "RED"}},
@@ -64,8 +69,11 @@ PAYLOADS = {
     "Cnt": {"count": 3},
     "Mu": {"rename": None},
     "Su": {"tick": 5},
+    "RootFr": {"count": 4, "me": {"name": "z"}},
+    "RootOne": {"count": 9},
+    "RootMix": {"count": 1, "users": []},
 }
-SINGLE_TOP = {"One": "user", "Un": "thing", "Fr": "user", "Li": "users", "Sc": "when", "Cnt": "count", "Mu": "rename", "Su": "tick"}
+SINGLE_TOP = {"One": "user", "Un": "thing", "Fr": "user", "Li": "users", "Sc": "when", "Cnt": "count", "Mu": "rename", "Su": "tick", "RootOne": "count"}
 
 ORDERS = [()]
 for _k in range(1, 4):
